@@ -91,6 +91,10 @@ func classify(c *ast.CallExpr, recv string) string {
 	case recv + ".wr.Reset":
 		return "bufReset"
 	}
+	// a dial through a net.Dialer value (`d.Dial`, `d.DialContext`)
+	if strings.HasSuffix(p, ".Dial") || strings.HasSuffix(p, ".DialContext") {
+		return "dial"
+	}
 	return ""
 }
 
@@ -560,6 +564,149 @@ func transcribeConn(f *fn) []string {
 	return out
 }
 
+// transcribeDialLoop: Connect()'s loop over the server list as a value of Tcp.DialLoop — does the dial stand in
+// `for _, host := range this.Servers` and dial `host`; where does its deadline come from (Timeout for every
+// dial: net.DialTimeout, a Dialer{Timeout: …}, a deadline / context made inside the loop; or one deadline for
+// the whole list: a Dialer{Deadline: …} / context.WithTimeout made before the loop); does a failed dial go on
+// to the next server; does a successful one assign conn and wr and return nil.
+func transcribeDialLoop(f *fn) string {
+	ranges, budget, next, stop := false, ".unknown", false, false
+	var loop *ast.RangeStmt
+	for _, st := range f.decl.Body.List {
+		if rs, ok := st.(*ast.RangeStmt); ok && sel(rs.X) == f.recv+".Servers" {
+			loop = rs
+		}
+	}
+	if loop == nil {
+		return "{ ranges := false, budget := .unknown, nextOnErr := false, stopOnOk := false }"
+	}
+	hostVar := ""
+	if id, ok := loop.Value.(*ast.Ident); ok {
+		hostVar = id.Name
+	}
+	// definitions of local variables (composite literals / calls), with their positions
+	defs := map[string]ast.Expr{}
+	defPos := map[string]token.Pos{}
+	ast.Inspect(f.decl.Body, func(n ast.Node) bool {
+		if as, ok := n.(*ast.AssignStmt); ok && len(as.Rhs) >= 1 {
+			for i, l := range as.Lhs {
+				if id, ok := l.(*ast.Ident); ok {
+					r := as.Rhs[0]
+					if i < len(as.Rhs) {
+						r = as.Rhs[i]
+					}
+					defs[id.Name] = r
+					defPos[id.Name] = as.Pos()
+				}
+			}
+		}
+		return true
+	})
+	inLoop := func(p token.Pos) bool { return p >= loop.Body.Pos() && p <= loop.Body.End() }
+	dialIdx := -1
+	for i, st := range loop.Body.List {
+		as, ok := st.(*ast.AssignStmt)
+		if !ok || len(as.Rhs) != 1 {
+			continue
+		}
+		c, ok := as.Rhs[0].(*ast.CallExpr)
+		if !ok || classify(c, f.recv) != "dial" {
+			continue
+		}
+		dialIdx = i
+		p := sel(c.Fun)
+		usesHost := false
+		for _, a := range c.Args {
+			if id, ok := a.(*ast.Ident); ok && id.Name == hostVar && hostVar != "" {
+				usesHost = true
+			}
+		}
+		ranges = usesHost
+		switch {
+		case p == "net.DialTimeout" && len(c.Args) == 3:
+			budget = ".perServer"
+		case p == "net.Dial":
+			budget = ".unknown" // no deadline at all
+		default:
+			// d.Dial / d.DialContext: look at how d (and the context) were made
+			recvName := strings.TrimSuffix(strings.TrimSuffix(p, ".DialContext"), ".Dial")
+			def := defs[recvName]
+			if u, ok := def.(*ast.UnaryExpr); ok {
+				def = u.X
+			}
+			keys := map[string]bool{}
+			if cl, ok := def.(*ast.CompositeLit); ok && strings.HasSuffix(sel(cl.Type), "Dialer") {
+				for _, el := range cl.Elts {
+					if kv, ok := el.(*ast.KeyValueExpr); ok {
+						keys[sel(kv.Key)] = true
+					}
+				}
+			}
+			switch {
+			case strings.HasSuffix(p, ".DialContext") && len(c.Args) > 0:
+				if id, ok := c.Args[0].(*ast.Ident); ok {
+					if cd, ok := defs[id.Name].(*ast.CallExpr); ok && (sel(cd.Fun) == "context.WithTimeout" || sel(cd.Fun) == "context.WithDeadline") {
+						if inLoop(defPos[id.Name]) {
+							budget = ".perServer"
+						} else {
+							budget = ".shared"
+						}
+					}
+				}
+			case keys["Deadline"]:
+				if inLoop(defPos[recvName]) {
+					budget = ".perServer"
+				} else {
+					budget = ".shared"
+				}
+			case keys["Timeout"]:
+				budget = ".perServer"
+			}
+		}
+	}
+	touches := func(n ast.Node) bool {
+		hit := false
+		ast.Inspect(n, func(m ast.Node) bool {
+			if as, ok := m.(*ast.AssignStmt); ok {
+				for _, l := range as.Lhs {
+					if t := sel(l); t == f.recv+".conn" || t == f.recv+".wr" {
+						hit = true
+					}
+				}
+			}
+			return !hit
+		})
+		return hit
+	}
+	if dialIdx >= 0 && dialIdx+1 < len(loop.Body.List) {
+		if is, ok := loop.Body.List[dialIdx+1].(*ast.IfStmt); ok && exprStr(is.Cond) == "err!=nil" && is.Else == nil && len(is.Body.List) > 0 && !touches(is.Body) {
+			if br, ok := is.Body.List[len(is.Body.List)-1].(*ast.BranchStmt); ok && br.Tok == token.CONTINUE {
+				next = true
+			}
+		}
+		rest := loop.Body.List[dialIdx+2:]
+		if len(rest) > 0 {
+			if r, ok := rest[len(rest)-1].(*ast.ReturnStmt); ok && len(r.Results) == 1 && exprStr(r.Results[0]) == "nil" {
+				conn, wr := false, false
+				for _, st := range rest {
+					if as, ok := st.(*ast.AssignStmt); ok {
+						for _, l := range as.Lhs {
+							switch sel(l) {
+							case f.recv + ".conn":
+								conn = true
+							case f.recv + ".wr":
+								wr = true
+							}
+						}
+					}
+				}
+				stop = conn && wr
+			}
+		}
+	}
+	return fmt.Sprintf("{ ranges := %s, budget := %s, nextOnErr := %s, stopOnOk := %s }", leanBool(ranges), budget, leanBool(next), leanBool(stop))
+}
+
 // queueGoStmts: `go` statements in util/queue/RequestQueue.go.  The model's queue has exactly the consumers
 // that call it; a queue that starts goroutines of its own (a helper that waits in Get, say) is another consumer.
 func queueGoStmts(repo string) int {
@@ -843,7 +990,7 @@ func main() {
 
 	var b strings.Builder
 	b.WriteString("-- generated by xlate/c06 from net/oneway/OneWayTcpClient.go — do not edit\n")
-	b.WriteString("import Golib.Tcp.Facts\nimport Golib.Tcp.Interp\n\nnamespace Gen.C06\nopen Tcp\n\n")
+	b.WriteString("import Golib.Tcp.Facts\nimport Golib.Tcp.Interp\nimport Golib.Tcp.Dial\n\nnamespace Gen.C06\nopen Tcp\n\n")
 	b.WriteString("def facts : Facts :=\n")
 	fmt.Fprintf(&b, "  { sendDirect := %s\n", leanCalls(callSeq(sd)))
 	fmt.Fprintf(&b, "    directCloseOnSendErr := %s\n", leanBool(closeOnErr(sd, "send")))
@@ -900,6 +1047,8 @@ func main() {
 	fmt.Fprintf(&b, "    sendIsSendFlushFalse := %s\n", leanBool(sendIs))
 	fmt.Fprintf(&b, "    connect := %s\n", leanList(transcribeConn(co)))
 	fmt.Fprintf(&b, "    close := %s }\n", leanList(transcribeConn(cl)))
+	b.WriteString("\n/-- Connect()'s loop over the server list -/\ndef dialLoop : DialLoop :=\n")
+	fmt.Fprintf(&b, "  %s\n", transcribeDialLoop(co))
 	b.WriteString("\nend Gen.C06\n")
 	if *out == "" {
 		fmt.Print(b.String())
